@@ -237,10 +237,10 @@ func runUciScript(kind string, seed int64, steps []string) string {
 		case st == "sync":
 			// isready must be answered by readyok
 			ok := false
-			// ten seconds (stretched under load): the deadline is there to tell a dead command loop from a live one, and a
+			// thirty seconds (stretched under load): the deadline is there to tell a dead command loop from a live one, and a
 			// burst of other work on the machine has been seen to delay an answer by more than three seconds; once a sync of
 			// this script has failed, the verdict is in and the later ones do not wait long
-			patience := 10 * time.Second * loadScale()
+			patience := 30 * time.Second * loadScale()
 			if syncFailed {
 				patience = 500 * time.Millisecond
 			}
